@@ -472,5 +472,8 @@ Lemma units_propagate_table :
   forallb (fun u => unit_propagates_error hook_table u) hook_units = true.
 Proof. vm_compute. reflexivity. Qed.
 
+Lemma wrapped_leaves_propagate_table : forallb wrapped_leaf_propagates (all_root_leaves hook_table) = true.
+Proof. vm_compute. reflexivity. Qed.
+
 Lemma table_closed : roots_covered hook_table && forallb no_unrecognised (all_root_leaves hook_table) = true.
 Proof. vm_compute. reflexivity. Qed.
